@@ -145,17 +145,12 @@ def apply_rule(mirror, rule):
             return False, 'function %s has only %d `%s` loops, wanted #%d' % (rule['func'], len(occ), kw, nth)
         pos = s + occ[nth - 1].end()
         if kw == 'do':
-            k = pos
-            while m[k] in ' \t\n':
-                k += 1
-            if m[k] != '{':
-                return False, 'do without brace'
-            ce = match_paren(m, k, '{', '}')
-            mo = re.match(r'\s*while\s*\(', m[ce + 1:])
-            if not mo:
-                return False, 'do without while'
-            p = m.find('(', ce + 1)
-            q = match_paren(m, p)
+            # CBMC takes the contract of a do/while loop right after the `do` keyword (dfcc instrumentation only);
+            # the invariant is evaluated at every entry of the body
+            ins = ' ' + rule['marker'] + ' '
+            src = src[:pos] + ins + src[pos:]
+            open(path, 'w').write(src)
+            return True, 'marker inserted after `do` #%d of %s' % (nth, rule['func'])
         else:
             p = m.find('(', pos)
             if p < 0 or m[pos:p].strip():
@@ -236,6 +231,11 @@ def L(id_, file, func, keyword, nth, name, count=None):
 
 # group name -> list of rules.  A property's obligations name the groups their TU depends on.
 RULES = {
+ 'callrcu': [
+  # indirect callback invocation -> recorder (default definition: the call itself)
+  {'id': 'helper_indirect_call', 'file': 'src/urcu-call-rcu-impl.h', 'kind': 'regex', 'pattern': r'^(\s*)rhp->func\(rhp\);\s*$', 'repl': r'\1URCU_VERIF_CB(rhp);', 'count': 1,
+   'default_defs': {'URCU_VERIF_CB': '#define URCU_VERIF_CB(r) (r)->func(r)'}},
+ ],
  'lfht_tags': [
   {'id': 'tag_overrides', 'file': 'src/rculfhash.c', 'kind': 'after', 'pattern': r'^\treturn clear_flag\(node\) == \(struct cds_lfht_node \*\) END_VALUE;\s*$',
    'text': '}\n#include <verif_flag_overrides.h>\nstatic inline void verif_tag_overrides_anchor(void) {', 'count': 1},
@@ -243,6 +243,18 @@ RULES = {
  'lfht_mut': [
   L('add_inner_loop', 'src/rculfhash.c', '_cds_lfht_add', 'for', 2, 'lfht_add', count=2),
   L('gc_inner_loop', 'src/rculfhash.c', '_cds_lfht_gc_bucket', 'for', 2, 'lfht_gc', count=2),
+ ],
+ 'lfht_destroy': [
+  # plain read of a chain node's next word -> identity macro by default (adds no executable token), load hook in the harness
+  {'id': 'delete_bucket_plain_load', 'file': 'src/rculfhash.c', 'kind': 'regex', 'pattern': r'^(\t\tnode = )clear_flag\(node\)->next;\s*$',
+   'repl': r'\1URCU_VERIF_RD(clear_flag(node)->next);', 'count': 1, 'default_defs': {'URCU_VERIF_RD': '#define URCU_VERIF_RD(x) (x)'}},
+  {'id': 'delete_bucket_plain_load2', 'file': 'src/rculfhash.c', 'kind': 'regex', 'pattern': r'^(\t\turcu_posix_assert\(is_bucket\()node->next(\)\);)\s*$',
+   'repl': r'\1URCU_VERIF_RD(node->next)\2', 'count': 1},
+  L('delete_bucket_walk', 'src/rculfhash.c', 'cds_lfht_delete_bucket', 'do', 1, 'lfht_delb_walk', count=1),
+  L('delete_bucket_sanity', 'src/rculfhash.c', 'cds_lfht_delete_bucket', 'for', 1, 'lfht_delb_sanity', count=2),
+  L('delete_bucket_free', 'src/rculfhash.c', 'cds_lfht_delete_bucket', 'for', 2, 'lfht_delb_free', count=2),
+  L('is_empty_walk', 'src/rculfhash.c', 'cds_lfht_is_empty', 'do', 1, 'lfht_isempty', count=1),
+  L('count_nodes_walk', 'src/rculfhash.c', 'cds_lfht_count_nodes', 'do', 1, 'lfht_count', count=1),
  ],
  'lfht_trav': [
   L('lookup_loop', 'src/rculfhash.c', 'cds_lfht_lookup', 'for', 1, 'lfht_lookup', count=1),
